@@ -174,3 +174,24 @@ Theorem C03_power_printing_this_tree :
   else ~ power_statement c03_prec_pow_base c03_prec_pow_exp c03_prec_pow_own.
 Proof. exact (power_either c03_prec_pow_base c03_prec_pow_exp c03_prec_pow_own). Qed.
 Print Assumptions C03_power_printing_this_tree.
+
+(* Hand-written guards (C03's open finding merged_guard_reevaluated, design/C03.md item 13): merging adjacent
+   conditionals with one guard agrees with the interpreter's reading (each guard evaluated when its statement is
+   reached) when every statement that is followed by another one of its group keeps a true guard true -- the side
+   condition fixes/C03-merged-guard.patch establishes -- and differs without it.  Abstract model
+   (proofs/GuardMerge.v), generic in the state; tied to the code by the witness only: the two values of
+   wit_interpreter / wit_generated are compared with the real interpreter and the real compiled stepper on
+   corpus/C03/raw_guard_rewritten.json by harness/c03.py on every run. *)
+From Dagrt Require GuardMerge.
+
+Theorem C03_merged_guard_sound_if_stable : forall (state : Type) (gs : list (GuardMerge.group state)),
+  Forall (GuardMerge.stable state) gs ->
+  forall s, GuardMerge.run_each state (flat_map (GuardMerge.expand state) gs) s = GuardMerge.run_merged state gs s.
+Proof. exact GuardMerge.merge_sound. Qed.
+Print Assumptions C03_merged_guard_sound_if_stable.
+
+Theorem C03_merged_guard_refuted :
+  exists (gs : list (GuardMerge.group GuardMerge.wst)) (s : GuardMerge.wst),
+    GuardMerge.run_each _ (flat_map (GuardMerge.expand _) gs) s <> GuardMerge.run_merged _ gs s.
+Proof. exact GuardMerge.merge_refuted. Qed.
+Print Assumptions C03_merged_guard_refuted.
